@@ -545,6 +545,69 @@ def r6_jagged_offsets(idx, r):
                           msg=f"one input entry must record exactly one of (offset+shape) or (none): offsets{o} shapes{sh} nones{no}")
 
 
+def r7_coercion(idx, r):
+    """A value-changing cast on the write path (`x.astype(T)` with T computed from the data, not a
+    string-encoding literal) must be followed, on every path to a normal exit, by a test that
+    compares the cast array with its source and raises (np.array_equal / ==) - otherwise values
+    that T cannot hold are stored as something else. String encodings (`astype("S")`) fail loudly
+    by themselves and are exempt."""
+    targets = [(LAYOUT, "replaceNonesWithNonsense"), (DB, "packSpecialData"), (DB, "Database._writeParams"), (JAG, "JaggedArray.__init__")]
+    for mod, q in targets:
+        f = idx.func(f"{mod}.{q}")
+        if f is None:
+            raise AnchorMissing(f"{mod}.{q}")
+        casts = []
+        for c in iter_calls(f.node):
+            if call_attr(c) == "astype" and c.args:
+                casts.append(c)
+        if not casts:
+            r.ok(f"{q}:no-cast", f, msg="no astype on this write path")
+            continue
+        for c in casts:
+            t = c.args[0]
+            if const_str(t) is not None and const_str(t).upper().startswith(("S", "U")):
+                r.ok(f"{q}:string-encoding:{norm(c)[:50]}", f, node=c)
+                continue
+            # find the statement `dst = src.astype(T)`
+            stmt = next((s for s in walk_local(f.node) if isinstance(s, ast.Assign) and s.value is c), None)
+            src = c.func.value
+            if stmt is None or len(stmt.targets) != 1 or not isinstance(stmt.targets[0], ast.Name) or not isinstance(src, ast.Name):
+                r.undecided(f"{q}:cast-shape:{norm(c)[:50]}", f, "cast is not of the form `dst = src.astype(T)`", node=c)
+                continue
+            dst = stmt.targets[0].id
+            same_name = dst == src.id
+
+            def is_check(n, dst=dst, srcn=src.id):
+                if not isinstance(n, ast.If):
+                    return False
+                names = set()
+                for sub in ast.walk(n.test):
+                    if isinstance(sub, ast.Call) and dotted(sub.func) in ("np.array_equal", "numpy.array_equal", "np.allclose", "np.array_equiv") and len(sub.args) >= 2:
+                        names |= {dotted(a) for a in sub.args[:2]}
+                    if isinstance(sub, ast.Compare) and len(sub.ops) == 1 and isinstance(sub.ops[0], (ast.Eq, ast.NotEq)):
+                        names |= {dotted(sub.left), dotted(sub.comparators[0])}
+                return dst in names and srcn in names and dst != srcn and always_exits(n.body)
+
+            def ev(n, stmt=stmt):
+                if n is stmt:
+                    return ["cast"]
+                if is_check(n):
+                    return ["check"]
+                return []
+
+            fl = Flow(f.node, ev).run()
+            bad = None
+            if same_name:
+                bad = "the cast overwrites its source, so the result can no longer be compared with the values it came from"
+            else:
+                for e in fl.normal_exits():
+                    if e.state.get("cast", (0, 0))[1] >= 1 and e.state.get("check", (0, 0))[0] < 1:
+                        bad = f"a path reaches the exit at line {e.line} with the cast result unchecked against its source"
+                        break
+            r.require(bad is None, f"{q}:cast-checked:{norm(t)[:30]}", f, node=c,
+                      msg=(bad or "") + f": `{norm(stmt)[:80]}` converts to a type chosen from part of the data")
+
+
 def run(idx, chk):
     chk.explanation = (
         "C05: pack/unpack are sibling implementations; their attrs key sets, strategy decision trees, None-sentinel tables, "
@@ -564,3 +627,5 @@ def run(idx, chk):
                  lambda r: r6_jagged_offsets(idx, r), floor=6, necessary="ragged entries are located by offset and shape; a wrong step shifts every later entry")
     chk.run_rule("R05.5", "serializer protocol: name+version recorded with pack, checked before unpack; linkedDims/specialFormatting consulted",
                  lambda r: r5_serializer(idx, r), floor=9, necessary="custom-serialised parameters decode only with the serializer that wrote them")
+    chk.run_rule("R05.7", "a value-changing cast on the write path is compared with its source before the data is returned for storage",
+                 lambda r: r7_coercion(idx, r), floor=4, necessary="'never stored as something that reads back different': a cast to a type chosen from one element truncates the others")
